@@ -7,7 +7,7 @@
 From Coq Require Import ZArith List Bool.
 From GV.Gen Require Import Configs.
 From GV.Model Require Import Check.
-From GV.Lemmas Require Import RandL C13L.
+From GV.Lemmas Require Import RandL C13L C13W.
 Import ListNotations.
 Open Scope Z_scope.
 
@@ -33,6 +33,12 @@ Proof. exact rooms_rejects. Qed.
 Theorem C13_draws_raise_only_ValueError : forall g n lo hi k x,
   (Leaf (rchoice g n) (Err x) -> x = ValueError) /\ (Leaf (rints g lo hi) (Err x) -> x = ValueError) /\ (Leaf (rsample g n k) (Err x) -> x = ValueError).
 Proof. exact draws_only_value_error. Qed.
+
+(* ---- `empty`, for EVERY shape of at least 4x4, every flag combination and every random outcome (no bound): the result is a state with the
+        requested shape, an unbroken wall boundary, the agent inside, empty-handed, on a floor cell, and exactly one exit ---- *)
+Theorem C13_empty_wf : forall h w ra re own r, 4 <= h -> 4 <= w -> Leaf (reset_empty h w ra re own) r ->
+  exists s, r = Ok s /\ wf_check (PEmpty h w ra re) s = true.
+Proof. exact empty_wf. Qed.
 
 (* ---- complete outcome trees: every shipped parameter set whose tree is small enough for the kernel, and small shapes of
         every function (bound = the listed parameter sets) ---- *)
